@@ -1,6 +1,6 @@
 #include "slu_mt_@p@defs.h"
 /* ghosts (defined in solve_stubs.c) */
-extern int_t g_s, g_lastL, g_lastG, g_lastU, g_work_len; extern int g_trsmL, g_trsmU, g_gemm, g_trsv, g_n_malloc, g_n_free;
+extern int_t g_s, g_lastL, g_lastG, g_lastU; extern @T@ *g_work, *g_soln; extern int g_trsmL, g_trsmU, g_gemm, g_trsv, g_n_malloc, g_n_free;
 /* inputs: L in SCP format (CAP columns, LC row subscripts, LUC values), U in NCP format (UC entries), B dense with <= 2 columns */
 trans_t in_trans; SuperMatrix in_L, in_U, in_B; SCPformat in_Lstore; NCPformat in_Ustore; DNformat in_Bstore;
 int_t in_perm_r[CAP], in_perm_c[CAP];
@@ -8,7 +8,17 @@ int_t in_xsup[CAP+1], in_xsupend[CAP+1], in_supno[CAP+1], in_Lrowbeg[CAP+1], in_
 @T@ in_Lval[LUC];
 int_t in_Ucolbeg[CAP+1], in_Ucolend[CAP+1], in_Urow[UC]; @T@ in_Uval[UC];
 @T@ in_Bval[CAP*2]; Gstat_t in_Gstat; flops_t in_ops[NPHASES]; int_t in_info;
+/* exact-size work arrays (see solve_stubs.c): sizes split into their possible constant values, cbmc cannot cope with heap objects of symbolic size */
+#include <stdlib.h>
+#define AL(k) if ((k) <= MAXSZ && ((k) <= CAP || (k) % 2 == 0) && n == (k)) p = calloc((k), sizeof(@T@)); else
+#define ALLOC_EXACT AL(0) AL(1) AL(2) AL(3) AL(4) AL(5) AL(6) AL(7) AL(8) AL(9) AL(10) AL(11) AL(12) AL(13) AL(14) AL(15) AL(16) p = NULL;
+#define MAXSZ (2*CAP)
+static @T@ *alloc_work(int_t n) { @T@ *p = NULL; ALLOC_EXACT return p; }   /* n*nrhs entries, nrhs <= 2 */
+#undef MAXSZ
+#define MAXSZ CAP
+static @T@ *alloc_soln(int_t n) { @T@ *p = NULL; ALLOC_EXACT return p; }   /* n entries */
 void h_gstrs_solve(void) {
+  g_work = alloc_work((0 <= in_L.nrow && in_L.nrow <= CAP && 0 <= in_B.ncol && in_B.ncol <= 2) ? in_L.nrow * in_B.ncol : -1); g_soln = alloc_soln(in_L.nrow);
   in_L.Store = &in_Lstore; in_U.Store = &in_Ustore; in_B.Store = &in_Bstore; in_Bstore.nzval = in_Bval; in_Gstat.ops = in_ops;
   in_Lstore.nzval = in_Lval; in_Lstore.nzval_colbeg = in_Lnzbeg; in_Lstore.nzval_colend = in_Lnzend; in_Lstore.rowind = in_Lrow;
   in_Lstore.rowind_colbeg = in_Lrowbeg; in_Lstore.rowind_colend = in_Lrowend; in_Lstore.col_to_sup = in_supno;
